@@ -101,6 +101,14 @@ func witnesses() []wit {
 		ws = append(ws, wit{"float-forced-break-lost", "a forced page break inside a float splits the float; the main flow ends on page 1, so the part of the float after the break is never laid out (same mechanism as float-last-child-lost)",
 			Input{HTML: html, Flows: []Flow{{ID: "", Kind: "main", Text: "w1q"}, {ID: "f1", Kind: "float", Text: frag(fl), Prev: "w1q"}}, Mode: "witness"}})
 	}
+	{
+		head := `<style>@page{size:200px 100px;margin:20px;@top-center{content:element(hd);font-family:ahem;font-size:8px}}html{margin:0;padding:0}body{font-family:ahem;font-size:10px;line-height:2;margin:0}p{margin:0}</style>`
+		a := `w1q<br>w2q<br>w3q<br>w4q`
+		b := `<p>w5q</p>`
+		html := head + `<body>` + a + `<div id="r1" style="position:running(hd)">w9q</div>` + b + `</body>`
+		ws = append(ws, wit{"running-element-stale-page", "a running element that ends a line box is registered for page 1 when that line is first tried there; the line is pushed to page 2 (widows), the registration stays, and the margin box of page 1 shows an element whose anchor is on page 2",
+			Input{HTML: html, Flows: []Flow{{ID: "", Kind: "main", Text: frag(a + b)}, {ID: "r1", Kind: "running", Text: "w9q", Prev: "w4q", Next: "w5q"}}, Mode: "witness"}})
+	}
 	return ws
 }
 
